@@ -822,8 +822,18 @@ def p_C17(ctx):
         for c in cs:
             c = dict(c)
             c["render"] = True
-            c["runs"] = runs
+            c["runs"] = runs          # r1 / r2: the same input rendered twice
             yield c
+            # the same building scaled so that its energies add up to a few million kWh (a very large building:
+            # the property quantifies over large values) and eight times smaller, as cases of their own so that
+            # each is logged with its own exponent
+            if "comps" in c["src"]:
+                tot = sum(abs(x) for k_ in c["src"]["comps"] for x in k_["v"]) + 1
+                big = max(2, int(4.0e6 / tot))
+                for tag, k in (("big", [big, 1]), ("small", [1, 8])):
+                    c2 = dict(c)
+                    c2["runs"] = [{"tag": tag, "mul": k}]
+                    yield c2
     ctx.replay(rend(latc), "lattice", "Trace_C17")
     ctx.replay(rend(rnd(ctx, 40, 2000, None, aux=True)), "random", "Trace_C17")
     # --- shipped files: library renderings (r1, r2) followed by the documents the real program writes for the same input
